@@ -23,8 +23,9 @@ contains the default allocators, so the renaming is observable on every tree).
 
 Use after free is outside the spec: the ledger quarantines and poisons released blocks (writes -> UseAfterFree
 event at Finish) and the same histories run in the asan variant with the quarantine ASan-poisoned; only
-use-after-poison / use-after-free / double-free / bad-free reports count for this property, other sanitizer
-reports and crashes of the plain build are printed as notes (they belong to other properties).
+use-after-poison / use-after-free / double-free / bad-free reports and heap-buffer-overflows of blocks that came
+from the user's allocator count for this property, other sanitizer reports and crashes of the plain build are
+printed as notes (they belong to other properties).
 """
 import collections, glob, hashlib, json, os, re, shutil, subprocess, sys, time
 from concurrent.futures import ThreadPoolExecutor
@@ -114,6 +115,15 @@ def histories(tier, seed, variant="plain"):
             H.append(hist(a, "interp"))
         H.append(hist("api:loop", "none", out=1))
         H.append(hist("api:sieve", "gen", 2, rep=2))
+        # jcall/jret through a variadic prototype (per-insn call data of the -O0 generator)
+        H.append(hist("scanstr:jcall", LINKS[1 + seed % 3], 0))
+        H.append(hist("scanstr:jcall", LINKS[1 + (seed + 1) % 3], 1 + seed % 3))
+        # a call of an external function with 70 arguments, interpreted and generated
+        H.append(hist("scanstr:manyargs", "interp"))
+        H.append(hist("scanstr:manyargs", LINKS[1 + seed % 3], seed % 4))
+        if variant == "plain":
+            # > 1 page of generated code with hundreds of patched call sites (page-straddling patches)
+            H.append(hist("bigcode", "lazy" if seed % 2 else "gen", seed % 2))
         for i, m in enumerate(mirs):
             k = i + seed
             H.append(hist("scan:" + m, LINKS[1 + k % 3], k % 4, out=(k // 4) % 2))
@@ -123,7 +133,9 @@ def histories(tier, seed, variant="plain"):
             H.append(hist("c2m:" + c, LINKS[k % 4], (k // 2) % 4, out=k % 2))
         H.append(hist("c2m:fib", "none"))
     else:
-        srcs = apis + ["scan:" + m for m in mirs] + ["bin:" + m for m in mirs] + ["c2m:" + c for c in C_INPUTS]
+        for o in range(3):
+            H.append(hist("bigcode", "gen" if (o + seed) % 2 else "lazy", o, rep=3))
+        srcs = apis + ["scanstr:jcall", "scanstr:manyargs"] + ["scan:" + m for m in mirs] + ["bin:" + m for m in mirs] + ["c2m:" + c for c in C_INPUTS]
         n = 0
         for s in srcs:
             H.append(hist(s, "none", out=1))
@@ -791,7 +803,11 @@ def crash_key(c):
         kind = m.group(1)
         key = "asan:%s:%s" % (kind, sm.group(3) if sm else "?")
         c["summary"] = "%s at %s in %s" % (kind, sm.group(2), sm.group(3)) if sm else kind
-        return key, kind in ASAN_IN_SCOPE
+        # an access beyond the bounds of a block that came from the user's allocator (its allocation stack goes
+        # through the ledger) is a misuse of that block; overflows of stack / global / libc objects are not ours
+        alloc_stack = err.split("allocated by thread", 1)[1][:1500] if "allocated by thread" in err else ""
+        user_block = kind == "heap-buffer-overflow" and re.search(r"\bin (l_malloc|l_calloc|l_realloc|block_new)\b", alloc_stack)
+        return key, kind in ASAN_IN_SCOPE or bool(user_block)
     # A crash of the uninstrumented build cannot be attributed: a wild read that lands in a quarantined block and a
     # read through a stale pointer both end in a dereference of the 0xDD poison.  The asan variant runs the same
     # history and tells them apart (use-after-poison / heap-use-after-free vs. heap-buffer-overflow), so it alone
